@@ -59,6 +59,19 @@ def gen_tree(rng, root):
             f.write("".join(l + "\n" for l in lines))
         os.chmod(os.path.join(root, path), 0o644)
         files.append(path)
+    # files with NUL bytes (a match after the NUL): skipped when found by traversal, searched when named explicitly
+    for d in dirs:
+        if rng.random() < 0.6:
+            name = os.path.normpath(os.path.join(d, "bin%d.txt" % len(files)))
+            with open(os.path.join(root, name), "wb") as f:
+                f.write(b"binary \x00\x00 start\nline with a hit after the nul\nmore\n")
+            os.chmod(os.path.join(root, name), 0o644)
+            files.append(name)
+    # one ordinary top-level file to be named explicitly next to the directories
+    with open(os.path.join(root, "top.txt"), "w") as f:
+        f.write("first line\nthe top file has a hit\n")
+    os.chmod(os.path.join(root, "top.txt"), 0o644)
+    files.append("top.txt")
     add_links(rng, root, dirs, files)
     with open(os.path.join(root, "pre.sh"), "w") as f:
         f.write('#!/bin/sh\ncase "$1" in *slow*) sleep 0.0%d;; esac\nexec cat "$1"\n' % rng.randint(1, 6))
@@ -109,11 +122,21 @@ def corpus_tree(root):
         with open(os.path.join(root, path), "w") as f:
             f.write(text)
         os.chmod(os.path.join(root, path), 0o644)
+    for path in ("top.txt", "sub/bin1.txt", "sub/deep/bin2.txt", "other/bin3.txt", "other/bin4.txt"):
+        with open(os.path.join(root, path), "wb") as f:
+            f.write(b"the top file has a hit\n" if path == "top.txt" else b"nul \x00 byte\na hit after it\n")
+        os.chmod(os.path.join(root, path), 0o644)
     os.symlink(".", os.path.join(root, "sub/self"))
     os.symlink("..", os.path.join(root, "sub/deep/up"))
     with open(os.path.join(root, "pre.sh"), "w") as f:
         f.write('#!/bin/sh\nexec cat "$1"\n')
     os.chmod(os.path.join(root, "pre.sh"), 0o755)
+
+
+def explicit_paths(root):
+    """an explicit file followed by the top-level directories: `rg pat file dir...`"""
+    ds = sorted(x for x in os.listdir(root) if os.path.isdir(os.path.join(root, x)) and not os.path.islink(os.path.join(root, x)))
+    return ["top.txt"] + ds
 
 
 def mode_args(mode):
@@ -238,7 +261,10 @@ def check_cli(ctx, rng, ntrees, runs_per_tree):
     trees.append(root)
     for mode in ("noheading", "files", "heading", "count"):
         for n in (2, 4, 8):
-            jobs.append(dict(root=root, mode=mode, n=n, pre=False, sort=False, follow=True))
+            jobs.append(dict(root=root, mode=mode, n=n, pre=False, sort=False, follow=True, explicit=False))
+    for mode in ("noheading", "count", "list"):
+        for n in (2, 3, 8):
+            jobs.append(dict(root=root, mode=mode, n=n, pre=False, sort=False, follow=False, explicit=True))
     for _ in range(ntrees):
         root = K.mktree("c08")
         gen_tree(rng, root)
@@ -248,7 +274,8 @@ def check_cli(ctx, rng, ntrees, runs_per_tree):
             n = rng.randint(2, 16)
             pre = rng.random() < 0.35 and mode != "files"
             sort = rng.random() < 0.15
-            jobs.append(dict(root=root, mode=mode, n=n, pre=pre, sort=sort, follow=rng.random() < 0.45))
+            jobs.append(dict(root=root, mode=mode, n=n, pre=pre, sort=sort, follow=rng.random() < 0.45,
+                             explicit=rng.random() < 0.4))
     def run(j):
         base = mode_args(j["mode"])
         if j["pre"]:
@@ -257,6 +284,8 @@ def check_cli(ctx, rng, ntrees, runs_per_tree):
             base = base + ["--sort", "path"]
         if j["follow"]:
             base = ["-L"] + base
+        if j["explicit"]:
+            base = base + explicit_paths(j["root"])
         r1 = K.run_rg(["-j1"] + base, j["root"], nobody=False)
         rn = K.run_rg(["-j%d" % j["n"]] + base, j["root"], nobody=False)
         rn2 = K.run_rg(["-j%d" % j["n"]] + base, j["root"], nobody=False)
@@ -266,14 +295,17 @@ def check_cli(ctx, rng, ntrees, runs_per_tree):
     stat = ctx.cov.setdefault("modes", {})
     orders_differ = 0
     for j, (r1, rn, rn2) in zip(jobs, res):
-        key = "%s%s%s%s" % (j["mode"], "/pre" if j["pre"] else "", "/sort" if j["sort"] else "", "/L" if j["follow"] else "")
+        key = "%s%s%s%s%s" % (j["mode"], "/pre" if j["pre"] else "", "/sort" if j["sort"] else "",
+                              "/L" if j["follow"] else "", "/file+dirs" if j["explicit"] else "")
         stat[key] = stat.get(key, 0) + 1
         replay = dict(kind="cli", mode=j["mode"], n=j["n"], pre=j["pre"], sort=j["sort"], follow=j["follow"],
-                      tree=tree_listing(j["root"]), args=" ".join((["-L"] if j["follow"] else []) + mode_args(j["mode"])),
+                      tree=tree_listing(j["root"]),
+                      args=" ".join((["-L"] if j["follow"] else []) + mode_args(j["mode"]) +
+                                    (explicit_paths(j["root"]) if j["explicit"] else [])),
                       j1=dict(status=r1["status"], out=repr(r1["out"][:400]), err=repr(r1["err"][:200])),
                       jn=dict(status=rn["status"], out=repr(rn["out"][:400]), err=repr(rn["err"][:200])))
         b1, p1, s1 = split_blocks(j["mode"], r1["out"])
-        ctx.note_case(repr((j["root"], j["mode"], j["n"], j["pre"], j["sort"], j["follow"])), len(b1) >= 2)
+        ctx.note_case(repr((j["root"], j["mode"], j["n"], j["pre"], j["sort"], j["follow"], j["explicit"])), len(b1) >= 2)
         if j["follow"]:
             ctx.cov["follow_runs"] = ctx.cov.get("follow_runs", 0) + 1
             if r1["err"]:
@@ -454,7 +486,7 @@ def run(ctx):
     rng = ctx.rng
     ctx.cov["rule"] = ("trees of 2-12 *.txt files (0..40000 lines, hit density 0/5%%/30%%/100%%) in up to 5 directories; per "
                        "tree several runs: mode in %s x N in 2..16 x slow --pre on 'slow*' files (35%%) x --sort path "
-                       "(15%%) x -L (45%%; trees contain directory links to '.', '..', a sibling, an ancestor two levels up, "
+                       "(15%%) x explicit `top.txt dir...` arguments (40%%; directories hold files with NUL bytes) x -L (45%%; trees contain directory links to '.', '..', a sibling, an ancestor two levels up, "
                        "dangling links and links to files); a fixed corner tree (directory containing a link to itself) first; "
                        "every configuration run once with -j1 and twice with -jN. non-trivial = at least two "
                        "non-empty blocks." % ", ".join(MODES))
